@@ -133,7 +133,25 @@ func (m *vpMesh) waitCIDR(at, ip, origin string, d time.Duration) bool {
 	deadline := time.Now().Add(vpPatience(d))
 	for time.Now().Before(deadline) {
 		if r := a.routeMgr.Lookup(net.ParseIP(ip)); r != nil && r.OriginAgent == o.ID() {
-			return true
+			// one announcement carries all of the origin's networks, but they are entered into
+			// the table one by one: wait for every one of them, not just the one asked for
+			all := true
+			for _, lr := range o.routeMgr.GetLocalRoutes() {
+				found := false
+				for _, fr := range a.routeMgr.GetFullRoutesForAdvertise(identity.AgentID{}) {
+					if fr.OriginAgent == o.ID() && fr.Network.String() == lr.Network.String() {
+						found = true
+						break
+					}
+				}
+				if !found {
+					all = false
+					break
+				}
+			}
+			if all {
+				return true
+			}
 		}
 		time.Sleep(300 * time.Microsecond)
 	}
